@@ -46,6 +46,7 @@ def setup():
 @st.composite
 def cases(draw):
     s = draw(iterlab.setups())
+    s["finalize"] = draw(st.sampled_from([True, True, False]))  # from_data: does the iterator own the caller's render data
     return {"setup": s, "ops": draw(iterlab.ops(n_hint=s["n"], max_len=30))}
 
 
@@ -93,6 +94,10 @@ def run_history(case, rec, lab=None):
         if k == "resize":
             env.apply(cols=o["cols"], rows=o["rows"])
             m.term = (o["cols"], o["rows"])
+            continue
+        if k == "decoy":
+            for L in (lab,):
+                L.decoy()
             continue
         if k == "tell":
             if r.tell() != r_frame:
@@ -142,6 +147,20 @@ def run_history(case, rec, lab=None):
     if any(e[0] == "render_with_finalized_data" for e in r.log):
         fail("a frame was rendered with finalized render data", {"kind": "finalized_use"})
     lab.it.close()
+    if lab.caller_data is not None and not lab.caller_data.finalized and definite:
+        # render data the caller kept (finalize=False) is used for a second iterator: it starts at frame 0 again,
+        # whatever the first iterator was doing when it was closed
+        from term_image.render import RenderIterator
+
+        try:
+            it2 = RenderIterator._from_render_data_(r, lab.caller_data, None, P.ExactPadding(), 1, False, finalize=False)
+            f0 = next(it2)
+            it2.close()
+        except Exception as e:
+            fail(f"a second iterator on the caller's render data raised {type(e).__name__}: {e}", {"kind": "reuse_data"})
+        if f0.number != 0:
+            fail(f"a second iterator on the caller's render data starts at frame {f0.number}, not 0", {"kind": "reuse_data"})
+        flags.add("data_reused")
     return flags, kinds, lab, m
 
 
